@@ -33,6 +33,7 @@ var pureInvokePrefixes = []string{
 	"(io.Reader).Read", "(io.Writer).Write",
 	"(github.com/pion/dtls/v3/pkg/crypto/ciphersuite.cbcMode).",
 	"(github.com/pion/transport/v4/replaydetector.ReplayDetector).",
+	"(github.com/pion/transport/v4/netctx.PacketConn).", "(github.com/pion/transport/v4/netctx.Conn).", "(net.PacketConn).", "(net.Conn).",
 	"(github.com/pion/logging.LoggerFactory).",
 	"(crypto.PublicKey).", "(crypto.Signer).Public",
 }
@@ -264,6 +265,21 @@ func (f *frame) intrinsic(full string, callee *ssa.Function, c *ssa.CallCommon, 
 			id = tt.typeIDName("*fmt.wrapError")
 		}
 		return []Term{mkIface(i64(int64(id)), a)}, true
+	case full == "errors.As":
+		vc.trust(full + " (may set the target, result unconstrained)")
+		if len(c.Args) == 2 {
+			if mi, ok := c.Args[1].(*ssa.MakeInterface); ok {
+				if _, isPtr := mi.X.Type().Underlying().(*types.Pointer); isPtr {
+					T := deref(mi.X.Type())
+					fr := f.freshOf("as", T)
+					f.store(f.val(mi.X), T, f.ptrDescOf(mi.X), fr)
+					r := vc.declareFresh(f.prefix+"errAs", SBool)
+					vc.assume(mkImplies(mkEq(ifTyp(args[0]), i64(0)), mkNot(r)))
+					return []Term{r}, true
+				}
+			}
+		}
+		return nil, false
 	case full == "errors.Is":
 		vc.trust(full)
 		r := vc.declareFresh(f.prefix+"errIs", SBool)
@@ -417,7 +433,8 @@ func (f *frame) intrinsicInvoke(full string, c *ssa.CallCommon, args []Term, pos
 	if hasAnyPrefix(full, pureInvokePrefixes) {
 		vc.trust(full + " (no effect on program state, result unconstrained)")
 		mods := map[string]bool{"$alloc": true}
-		if strings.HasSuffix(full, ".Sum") || strings.HasPrefix(full, "(crypto/cipher.") || strings.HasPrefix(full, "(io.Reader)") || strings.Contains(full, ".cbcMode)") {
+		switch c.Method.Name() {
+		case "Sum", "Seal", "Open", "CryptBlocks", "Read", "XORKeyStream", "Encrypt", "Decrypt", "ReadFrom", "ReadFromContext", "ReadContext":
 			hn, _ := f.byteHeap()
 			mods[hn] = true
 		}
@@ -432,6 +449,14 @@ func (f *frame) intrinsicInvoke(full string, c *ssa.CallCommon, args []Term, pos
 		}
 		if strings.HasSuffix(full, "(hash.Hash).Write") {
 			vc.assume(mkAnd(mkEq(rs[0], slLen(args[1])), mkEq(ifTyp(rs[1]), i64(0))))
+		}
+		if strings.HasSuffix(full, ".BlockSize") || strings.HasSuffix(full, "(hash.Hash).Size") {
+			// block and digest sizes of the standard primitives are small positive numbers
+			vc.trust("BlockSize()/Size() of cipher and hash objects is between 1 and 256")
+			vc.assume(mkAnd(sle(i64(1), rs[0]), sle(rs[0], i64(256))))
+		}
+		if strings.HasSuffix(full, ".NonceSize") || strings.HasSuffix(full, ".Overhead") {
+			vc.assume(mkAnd(sle(i64(0), rs[0]), sle(rs[0], i64(256))))
 		}
 		return rs, true
 	}
